@@ -66,7 +66,7 @@ def replay_instances(ctx, binp, scns, tag, variants, allpos=0, big_every=0, time
         outp = os.path.join(ctx.build, "c20.%s.%d.out.ndjson" % (tag, lo))
         vf.write_ndjson(scnp, part)
         env = dict(VERIF_SCN=scnp, VERIF_OUT=outp, VERIF_VARIANTS=variants, VERIF_ALLPOS=allpos, VERIF_BIG_EVERY=big_every,
-                   GOMEMLIMIT="6GiB")
+                   VERIF_HUGE_EVERY=(max(1, len(part) // (24 if ctx.quick else 200)) if tag == "D" else 0), GOMEMLIMIT="6GiB")
         if force:
             env["VERIF_FORCE"] = json.dumps(force)
         ctx.run_harness(binp, "TestVerifC20Replay", env=env, timeout=timeout)
